@@ -70,6 +70,199 @@ def opUtil (op : String) (a : KV) : String :=
   | "util.distinct" => fmtInts (extractKeys ((parseIntMap (a.str "m" "-")).getD []))
   | _ => "bad-op"
 
+
+/-! ### curve stream -/
+
+def cvEval (st : St) (a : KV) : St × String :=
+  let id := a.str "id" "c"
+  let (tbl', r) := evalCurve indef st.sensors (a.int "now" 0) (st.curves.length + 2) st.curves id
+  let st' := { st with curves := tbl' }
+  let cur := match tbl'.get? id with
+    | some c => c.value
+    | none => 0
+  match r with
+  | .ok v => (st', s!"i{v} val={cur}")
+  | .err _ => (st', s!"err val={cur}")
+  | .panic s => (st', s!"panic:{panicClass s}")
+
+def cvAdd (st : St) (a : KV) : St × String :=
+  let id := a.str "id" "c"
+  let cfg : CurveCfg :=
+    match a.str "kind" "linear" with
+    | "pid" => .pid (a.str "sensor" "s") (a.f64 "sp" F64.zero)
+    | "function" =>
+      let ms := a.str "members" "-"
+      .function (a.str "type" "sum") (if ms == "-" then [] else ms.splitOn ",")
+    | _ =>
+      let steps := match a.str "steps" "nil" with
+        | "nil" => none
+        | s => parseFloatMap s
+      .linear (a.str "sensor" "s") (a.int "min" 0) (a.int "max" 0) steps
+  let c : Curve := { id := id, cfg := cfg,
+                     pid := { p := a.f64 "p" F64.zero, i := a.f64 "i" F64.zero, d := a.f64 "d" F64.zero } }
+  -- registering under an existing id replaces the entry (cmap.Set)
+  let tbl := if st.curves.any (·.id == id) then st.curves.set c else st.curves ++ [c]
+  ({ st with curves := tbl }, "ok")
+
+def cvSensor (st : St) (a : KV) : St × String :=
+  let id := a.str "id" "s"
+  let v : Res F64 := match a.str "val" "err" with
+    | "err" => .err "read"
+    | s => .ok (parseF s)
+  let sv : SensorView := { avg := a.f64 "avg" F64.zero, value := v }
+  let tbl := (st.sensors.filter (·.1 != id)) ++ [(id, sv)]
+  ({ st with sensors := tbl }, "ok")
+
+/-! ### fan stream -/
+
+def optTok (o : Option Int) : String := match o with | some v => toString v | none => "-"
+
+def fanState (f : FanSt) : String :=
+  let ptrs := match f.kind with
+    | .hwmon => s!" minp={optTok f.minP} startp={optTok f.startP} maxp={optTok f.maxP}"
+    | _ => " minp=- startp=- maxp=-"
+  s!"min={f.getMin} start={f.getStart} max={f.getMax}" ++ ptrs
+
+def parseKind (s : String) : FanKind :=
+  match s with
+  | "file" => .file
+  | "cmd" => .cmd
+  | _ => .hwmon
+
+def newFanFromKV (a : KV) : FanSt :=
+  FanSt.new (parseKind (a.str "kind" "hwmon")) (a.bool "ns" false) (a.optInt "cmin") (a.optInt "cstart") (a.optInt "cmax")
+
+def opFan (st : St) (op : String) (a : KV) : St × String :=
+  match op with
+  | "fan.new" => let f := newFanFromKV a; ({ st with fan := f }, fanState f)
+  | "fan.attach" =>
+    let (f, r) := st.fan.attach indef (parseFloatMap (a.str "data" "nil"))
+    let rs := match r with | .ok _ => "ok" | _ => "err"
+    ({ st with fan := f }, rs ++ " " ++ fanState f)
+  | "fan.set" =>
+    let v := a.int "v" 0
+    let force := a.bool "force" false
+    let f := match a.str "which" "min" with
+      | "start" => st.fan.setStart v force
+      | "max" => st.fan.setMax v force
+      | _ => st.fan.setMin v force
+    ({ st with fan := f }, fanState f)
+  | "fan.get" => (st, fanState st.fan)
+  | _ => (st, "bad-op")
+
+/-! ### world (controller) stream -/
+
+def parseReadMode (s : String) : ReadMode :=
+  match s with
+  | "perm" => .errPerm
+  | "other:-1" => .errOther (-1)
+  | "other:0" => .errOther 0
+  | _ => .ok
+
+def parseWriteMode (s : String) : WriteMode :=
+  match s with
+  | "refused" => .refused
+  | "ignored" => .ignored
+  | _ => .applied
+
+def parseResp (s : String) : DevResp :=
+  if s.startsWith "q:" then .quant ((s.drop 2).toString.toInt?.getD 1)
+  else if s.startsWith "t:" then
+    .table ((parseIntMap ((s.drop 2).toString.replace ";" ",")).getD [])
+  else .identity
+
+def applyDev (d : Dev) (a : KV) : Dev :=
+  a.foldl (fun d (k, v) =>
+    match k with
+    | "pwm" => { d with pwm := v.toInt?.getD 0 }
+    | "mode" => { d with mode := v.toInt?.getD 0 }
+    | "rpm" => { d with rpm := v.toInt?.getD 0 }
+    | "resp" => { d with resp := parseResp v }
+    | "pwmread" => { d with pwmRead := parseReadMode v }
+    | "pwmwrite" => { d with pwmWrite := parseWriteMode v }
+    | "moderead" => { d with modeRead := parseReadMode v }
+    | "modewrite" => { d with modeWrite := parseWriteMode v }
+    | "rpmread" => { d with rpmRead := parseReadMode v }
+    | "hasmode" => { d with hasMode := v == "1" }
+    | "hasrpm" => { d with hasRpm := v == "1" }
+    | _ => d) d
+
+def worldState (w : World) : String :=
+  let avg := match w.fan.kind with | .hwmon => w.fan.rpmAvg | _ => F64.zero
+  let rint := match w.fan.kind with | .hwmon => 0 | _ => w.fan.rpmInt
+  s!"pwm={w.dev.pwm} mode={w.dev.mode} last={optTok w.ctl.lastSet} off={w.ctl.offset} min={w.fan.getMin} max={w.fan.getMax} avg={fmtF avg} rint={rint} cnt={w.ctl.unexpectedCount} inc={w.ctl.increasedCount}"
+
+def obsLog (os : List Obs) : String :=
+  let l := os.filterMap fun o =>
+    match o with
+    | .wrotePwm v ok => some (s!"pwm={v}" ++ (if ok then "" else ":refused"))
+    | .wroteMode m ok => some (s!"mode={m}" ++ (if ok then "" else ":refused"))
+    | _ => none
+  if l.isEmpty then "-" else ",".intercalate l
+
+def resUnit (r : Res Unit) : String :=
+  match r with
+  | .ok _ => "ok"
+  | .err e => if e == "stalled-at-max" then "err:stalled-at-max" else "err"
+  | .panic s => s!"panic:{panicClass s}"
+
+def resIntW (r : Res Int) : String :=
+  match r with
+  | .ok v => s!"i{v}"
+  | .err e => if e == "stalled-at-max" then "err:stalled-at-max" else "err"
+  | .panic s => s!"panic:{panicClass s}"
+
+def parseCurveRes (s : String) : Res Int :=
+  match s with
+  | "err" => .err "curve"
+  | "panic" => .panic "nilmap"
+  | v => .ok (v.toInt?.getD 0)
+
+def wNew (a : KV) : World × String :=
+  let f0 := newFanFromKV a
+  let f1 : FanSt := match f0.kind with
+    | .hwmon =>
+      { f0 with minP := (a.optInt "minp").orElse (fun _ => f0.minP),
+                startP := (a.optInt "startp").orElse (fun _ => f0.startP),
+                maxP := (a.optInt "maxp").orElse (fun _ => f0.maxP),
+                rpmAvg := a.f64 "avg" F64.zero }
+    | _ => { f0 with rpmInt := a.int "rint" 0 }
+  let d0 : Dev := { mode := 2, hasMode := a.bool "hasmode" true, hasRpm := a.bool "hasrpm" true }
+  let d := applyDev d0 a
+  let pm := parseIntMap (a.str "map" "nil")
+  let distinct : Array Int := match pm with
+    | some m => (extractKeys m).toArray
+    | none => #[]
+  let ctl : Ctl := { pwmMap := pm, distinct := distinct, loop := newLoop a,
+                     origMode := a.int "origmode" 2, origPwm := a.int "origpwm" 0,
+                     lastSet := a.optInt "last" }
+  let w : World := { fan := f1, dev := d, ctl := ctl, rpmWindow := a.int "win" 10 }
+  (w, s!"ok distinct={fmtInts distinct.toList} " ++ worldState w)
+
+def opWorld (st : St) (op : String) (a : KV) : St × String :=
+  let w := st.world
+  match op with
+  | "w.new" => let (w, s) := wNew a; ({ st with world := w }, s)
+  | "w.dev" => let w := { w with dev := applyDev w.dev a }; ({ st with world := w }, "ok " ++ worldState w)
+  | "w.cycle" =>
+    let (w', r, o) := updateFanSpeed indef w (parseCurveRes (a.str "curve" "0")) (a.int "now" 0)
+    ({ st with world := w' }, s!"res={resUnit r} log={obsLog o} " ++ worldState w')
+  | "w.calc" =>
+    let (w', r, o) := calculateTargetPwm indef w (parseCurveRes (a.str "curve" "0")) (a.int "now" 0)
+    ({ st with world := w' }, s!"res={resIntW r} log={obsLog o} " ++ worldState w')
+  | "w.setpwm" =>
+    let (w', r, o) := ctlSetPwm w (a.int "t" 0)
+    ({ st with world := w' }, s!"res={resUnit r} log={obsLog o} " ++ worldState w')
+  | "w.poll" => let w' := measureRpm indef w; ({ st with world := w' }, "ok " ++ worldState w')
+  | "w.restore" =>
+    let (w', o) := restorePwmEnabled w
+    ({ st with world := w' }, s!"ok log={obsLog o} " ++ worldState w')
+  | "w.manual" =>
+    let (d', r, o) := trySetManualPwm w.fan w.dev
+    let w' := { w with dev := d' }
+    ({ st with world := w' }, s!"{resUnit r} log={obsLog o} " ++ worldState w')
+  | _ => (st, "bad-op")
+
 def step (st : St) (line : String) : St × String :=
   let toks := (line.splitOn " ").filter (· ≠ "")
   match toks with
@@ -95,6 +288,15 @@ def step (st : St) (line : String) : St × String :=
         let (l', r) := st.loop.cycle indef (a.int "target" 0) (a.int "current" 0) (a.int "now" 0)
         ({ st with loop := l' }, s!"i{r}")
       | _ => (st, "bad-op")
+    | "cv" =>
+      match op with
+      | "cv.reset" => ({ st with curves := [], sensors := [] }, "ok")
+      | "cv.sensor" => cvSensor st a
+      | "cv.add" => cvAdd st a
+      | "cv.eval" => cvEval st a
+      | _ => (st, "bad-op")
+    | "fan" => opFan st op a
+    | "w" => opWorld st op a
     | _ => (st, "bad-op")
 
 partial def loop (hin : IO.FS.Stream) (hout : IO.FS.Stream) (st : St) : IO Unit := do
